@@ -207,9 +207,10 @@ pub fn chk_default_reset<T: BlakeTy>() {
     obl!(ok, "default_chaining_value_is_specified_iv");
     obl!(d.t() == 0 && d.pos() == 0, "default_counter_and_buffer_empty");
     let pending: [u8; 128] = any();
-    let p: usize = 5; // reset overwrites the whole value; the fill level is irrelevant to it
+    // from every state: empty or partly filled buffer, any chaining value, any counter (finalize_into_dirty leaves
+    // an empty buffer with a used chaining value behind)
     let mut h = T::default();
-    h.update(&pending[..p]);
+    if any::<bool>() { h.update(&pending[..5]); }
     let hv: [u8; 64] = any();
     h.set_h(&hv);
     h.set_t(any());
